@@ -160,6 +160,15 @@ def check(P, rep):
             rep.check(g.success_needs([e.node]), 'C12.R2', '%s:%s-on-success' % (en, key_variant(e.key)[0] + ('-debit' if (e, _) in debits else '-credit')),
                       'every success exit is preceded by this balance change', esite(g, e))
             rep.check(e.node not in succ_reachable(g, [e.node]), 'C12.R2', '%s:balance-change-once' % en, 'balance change cannot repeat', esite(g, e))
+        # read-modify-write freshness (aliasing: from == to, or the same key touched twice)
+        for variant in ('Balance', 'Allowance'):
+            st = stale_reads(g, variant)
+            for w, w2, r in st:
+                rep.bad('C12.R2', '%s:%s:stale-read' % (en, variant),
+                        'a %s write stores a value computed from a read that precedes another %s write (if the two keys alias, e.g. from == to, the '
+                        'earlier write is lost)' % (variant, variant), esite(g, w), 'stale read at ctx%d.bb%d; intervening write: %s' % (r[0], r[1], w2.describe()[:120]))
+            if not st:
+                rep.ok('C12.R2', '%s: no %s write uses a read that precedes another %s write' % (en, variant, variant), entry_id(g))
         # R4 delegated spend
         valid = expiry_valid_edges(g)
         if 'spender' in sp:
